@@ -291,6 +291,8 @@ class Executor:
             return self.call_value(fv, [], {}, st, node)
         if isinstance(cls_attr, (types.FunctionType,)):
             return FuncVal(pyfunc=cls_attr, bound_self=ref)
+        if isinstance(getattr(cls_attr, "__wrapped__", None), types.FunctionType) and not isinstance(cls_attr, property):
+            return FuncVal(pyfunc=cls_attr.__wrapped__, bound_self=ref)    # functools.lru_cache around a method
         if isinstance(cls_attr, staticmethod):
             return FuncVal(pyfunc=cls_attr.__func__)
         if isinstance(cls_attr, classmethod):
@@ -486,6 +488,19 @@ class Executor:
             if attr in ("real",):
                 return base
             return BoundMethod(base, attr)
+        if isinstance(base, self.intr.SuperProxy):
+            mro = type(base.ref.obj).__mro__
+            idx = mro.index(base.after)
+            for cls in mro[idx + 1:]:
+                if attr in cls.__dict__:
+                    f = cls.__dict__[attr]
+                    if isinstance(f, types.FunctionType):
+                        return FuncVal(pyfunc=f, bound_self=base.ref)
+                    w = getattr(f, "__wrapped__", None)
+                    if isinstance(w, types.FunctionType):
+                        return FuncVal(pyfunc=w, bound_self=base.ref)
+                    self.unsupported(node, f"super().{attr} is not a plain method")
+            raise PathRaise(AttributeError, f"super has no {attr}")
         if isinstance(base, ExcVal):
             if attr == "args":
                 return tuple(base.args)
@@ -1294,6 +1309,7 @@ class Executor:
         if fv.closure_env is not None:
             env["$closure"] = fv.closure_env
         env["$module"] = module or fv.module or st.frames[-1].get("$module")
+        env["$qualname"] = (label or fv.qualname or "").split("::")[-1]
         depth = len(st.frames)
         st.frames.append(env)
         self.func_stack.append((label or fv.qualname or getattr(fnode, "name", "<fn>"),))
@@ -1830,8 +1846,54 @@ class Executor:
         items = self.iter_items(it, st, node)
         if items is not None:
             return self.unroll_for(node, items, st)
+        # a symbolic range whose bounds the path already confines to a small interval is unrolled exactly, each
+        # iteration guarded by "still inside the range" (complete: the bound is implied, not assumed)
+        if isinstance(it, RangeVal) and py_number(it.step) == 1 and isinstance(py_number(it.lo), int):
+            lo = py_number(it.lo)
+            for B in (4, 8):
+                if self.implied(st, self.cmp("<=", it.hi, lo + B)):
+                    return self.unroll_guarded(node, lo, it.hi, B, st)
         from .loops import symbolic_for
         return symbolic_for(self, node, it, st)
+
+    def unroll_guarded(self, node, lo, hi, B, st):
+        self.ctx.stats["loops_unrolled"] += 1
+        current = [st]
+        finished = []
+        exits = []
+        prefix0 = len(st.pc)
+        for x in range(lo, lo + B):
+            nxt = []
+            for s in current:
+                c = self.cmp("<", x, hi)
+                c = sbool(c) if is_sym(c) else c
+                if c is False:
+                    exits.append(s)
+                    continue
+                if c is not True:
+                    s_out = s.fork()
+                    s_out.decide(z3.Not(c))
+                    exits.append(s_out)
+                    s.decide(c)
+                self.assign_target(node.target, x, s)
+                prefix_len = len(s.pc)
+                outs = self.exec_block(node.body, s)
+                cont = []
+                for o in outs:
+                    if o.kind in ("normal", "continue"):
+                        cont.append(Outcome("normal", o.state))
+                    elif o.kind == "break":
+                        exits.append(o.state)
+                    else:
+                        finished.append(o)
+                cont = self.merge_outcomes(cont, prefix_len)
+                nxt.extend(o.state for o in cont)
+            current = nxt
+            if not current:
+                break
+        exits.extend(current)
+        outs = self.merge_outcomes([Outcome("normal", s) for s in exits], prefix0) if exits else []
+        return outs + finished
 
     def unroll_for(self, node, items, st):
         self.ctx.stats["loops_unrolled"] += 1
